@@ -15,7 +15,7 @@ import (
 )
 
 var scaleFactors = []string{"2147483648", "18446744073709551617", "1000000000000000000000000000000", "9223372036854775807",
-	"1099511627776", "4503599627370496", "1000000000000000", "36028797018963968", "281474976710656"} // incl. factors that keep the amount below 2^63 while amount x numerator exceeds it
+	"1099511627776", "4503599627370496", "1000000000000000", "36028797018963968", "281474976710656", "9223372036854775808", "18446744073709551616"} // incl. factors that keep the amount below 2^63 while amount x numerator exceeds it
 
 // vh allot-scale <seed> <n> <small-trace.ndjson> <scale.ndjson>
 func cmdAllotScale(args []string) {
@@ -192,6 +192,9 @@ func cmdScaleSem(args []string) {
 		// no portion-typed or string variables matter; every number literal becomes a number variable
 		counter := 0
 		liftNumbers(c.Stmts, c, &counter)
+		if len(c.Decls) > 24 {
+			continue // long declaration lists make the recursive Decl operator of the specification overflow TLC's evaluation stack
+		}
 		c.Text = printProgram(c.Decls, c.Stmts)
 		er := execCase(c)
 		if er.dropped != "" {
